@@ -407,7 +407,7 @@ def mutate(tokens, names, rng):
     return t
 
 
-SEPS = [" ", "", "  ", "\n", "\t ", " \n  ", "\r\n", " ", "", "\u00a0", "\u2003 ", " \u3000", "\u2028", " \n"]
+SEPS = [" ", "", "  ", "\n", "\t ", " \n  ", "\r\n", " ", "", "\u00a0", "\u2003 ", " \u3000", "\u2028", " \n", "\n\u00a0", "\n \u3000 ", "\r\n\u2003"]
 
 
 def render_input(g, tokens, rng=None, seps=None, foreign_at=None, kinds=None,
